@@ -329,6 +329,10 @@ pub trait Allocator<VM: VMBinding>: Downcast {
                 .allow_oom_call
             {
                 self.out_of_memory(tls);
+            } else {
+                // The request is given up without the callback; the slow path must still see
+                // that it has been given up, otherwise it retries for ever.
+                self.get_context().thrown_oom.store(true, Ordering::Relaxed);
             }
             return true;
         }
